@@ -322,7 +322,7 @@ void run_C13(void) {
       for (int which = 0; which < 4; which++) {
         const uint64_t N = rep & 1 ? 32 : 64;
         const int aut = which & 1;
-        ops_ring_history_case(which, N, aut ? PA[rep % 8] : 4 * (int64_t)(1 + rep % 7), (rep & 2) ? N : 2, aut ? ((rep & 2) ? -1 : 3) : 1, rep < 16, rep, "long_history_calls");
+        ops_ring_history_case(which, N, aut ? PA[rep % 8] : 4 * (int64_t)(1 + rep % 7), (rep & 2) ? N : 2, aut ? ((rep & 2) ? ((rep & 4) ? 2 * (int64_t)N + 1 : -1) : 3) : ((rep & 4) ? 2 * (int64_t)N : 1), rep < 16, rep, "long_history_calls");
       }
   }
   // the entry points of this property called a second time on the SAME buffers holding other data (new values, two limbs exchanged,
@@ -335,5 +335,15 @@ void run_C13(void) {
         if (cfg == DISP_GENERIC && (i & 1)) continue;
         ops_recontent_case("C13 entry points", RNAMES, (int)ARRAY_LEN(RNAMES), RN[i], cfg, G.thorough ? 40 : 6, (unsigned)i, "same_buffers_other_data_calls");
       }
+    // and with every allocation request made inside the call refused (build tag "oom"; a no-op in the other builds)
+    for (int cfg = DISP_NATIVE; cfg >= DISP_GENERIC; cfg--) {
+      ops_oom_case("C13 entry points", RNAMES, (int)ARRAY_LEN(RNAMES), 64, cfg, G.thorough ? 12 : 3, 0, "calls_repeated_under_allocation_failure");
+      ops_oom_case("C13 entry points", RNAMES, (int)ARRAY_LEN(RNAMES), 1024, cfg, G.thorough ? 6 : 2, 1, "calls_repeated_under_allocation_failure");
+    }
+    // and from a thread with a small stack, at the largest dimensions
+    for (int cfg = DISP_NATIVE; cfg >= DISP_GENERIC; cfg--) {
+      ops_small_stack_case("C13 entry points", RNAMES, (int)ARRAY_LEN(RNAMES), 65536, cfg, 256, G.thorough ? 4 : 1, 0, "small_stack_calls");
+      ops_small_stack_case("C13 entry points", RNAMES, (int)ARRAY_LEN(RNAMES), 16384, cfg, 256, G.thorough ? 4 : 2, 1, "small_stack_calls");
+    }
   }
 }
